@@ -62,6 +62,7 @@ class MockCA:
             delay=None, validate=None, tls=None, seed=0, tos=True, orders_field=True,
             cert_san_override=None, wildcard_field=True, port=0, bind="127.0.0.1", host=None,
             pem_style=None,        # how the certificate chain is written: None (LF, final newline) | "crlf" | "nofinal" | "blank_between" | "text_before"
+            contact_order="as_sent", # account objects list the contacts as sent | "sorted" | "reversed" (RFC 8555 gives the order no meaning)
             unknown_members=False, # every object carries members RFC 8555 does not define (clients must ignore them)
             detail_style=None,     # (letter, bytes): problem documents carry a long human-readable `detail` made of that letter (any language, any length)
             retry_after=None,      # value of a Retry-After header on the answers to authorization / order polls (RFC 8555 7.5.1)
@@ -511,7 +512,12 @@ class MockCA:
     # ---------------------------------------------------------------- resources
     def _acct_obj(self, i):
         a = self.accounts[i]
-        o = {"status": "valid", "contact": a["contacts"], "termsOfServiceAgreed": True}
+        shown = list(a["contacts"])
+        if self.o["contact_order"] == "sorted":
+            shown = sorted(shown, reverse=(shown == sorted(shown)))       # some other order than the one it was given
+        elif self.o["contact_order"] == "reversed":
+            shown.reverse()
+        o = {"status": "valid", "contact": shown, "termsOfServiceAgreed": True}
         if self.o["orders_field"]:
             o["orders"] = "%s/orders/%s" % (self.base, i)
         return o
